@@ -21,14 +21,23 @@
   * `edges_spec`            `edges(s)` = the pairs `(cid, class_next(s, cid))` over the valid class
                             ids of `s`, in the order of `class_ids()`; `next_total`
   * `final_states_spec`, `counts_consistent`
-  * compiled successor table: see the section at the end of the file (`compile_successors_eval`)
+  * `first_fit_terminates`, `compact_invariant`   the invariant of `CompactTableBuilder` (every
+                            cell is free or belongs to exactly one stored (state, char) pair) is
+                            preserved by first-fit `set_successors`, which terminates within its
+                            fuel and never trips its `assert!`; `eval` on the table built reads
+                            the stored value or the default
+  * `compile_successors_eval`   `compile_successors` succeeds and
+                            `eval(s, i) = id(next(state s, pick_alphabet()[i]))` for every state
+                            and every alphabet index
+  Nothing here is partial.
 -/
 import SmtModel.Props.C13
 import SmtModel.Props.C12
 import SmtModel.Proofs.AutomatonPrune
+import SmtModel.Proofs.AutomatonCompile
 
 namespace Smt.C14
-open Smt CharPartition BuilderSpec StateInConstruction
+open Smt CharPartition BuilderSpec StateInConstruction CompactTableBuilder
 
 /-! ### automata returned by the builder are well-formed -/
 
@@ -317,5 +326,132 @@ theorem pick_alphabet_reps {A : Automaton} (h : AutWF A) :
   intro c hc
   obtain ⟨r, hr, hrc⟩ := h3 c hc
   exact ⟨r, hr, fun s hs => (combined_uniform h hrc s hs).2⟩
+
+/-! ### the compact table and `compile_successors` -/
+
+/-- **first_fit_terminates**: on a builder in its invariant, `set_successors(i, row)` for a state
+    not stored yet and a row of distinct in-range characters terminates within the model's fuel,
+    never trips the `assert!(new_size >= b + alphabet_size)` or an index check, and
+    **compact_invariant** is preserved: afterwards every cell of `check` is free
+    (`= num_states`) or is cell `base[s] + c` of exactly one stored pair `(c, v)` of one stored
+    state `s` and holds `s` / `v` (`Cells`) -/
+theorem first_fit_terminates {t : CompactTableBuilder} {D : List (Nat × Row)} (hs : Shape t)
+    (hc : Cells t D) {i : Nat} (hi : i < t.numStates) (hiD : i ∉ D.map (·.1)) {row : Row}
+    (hrow : GoodRow t.alphabetSize row) :
+    ∃ t', t.setSuccessors i row = some t' ∧ Shape t' ∧ Cells t' ((i, row) :: D) :=
+  let ⟨t', h1, h2, h3, _⟩ := setSuccessors_spec hs hc hi hiD hrow
+  ⟨t', h1, h2, h3⟩
+
+/-- **compact_invariant**, read on the table built: `eval(s, c)` is the value stored for `(s, c)`
+    if the row of `s` contains `c`, and `default[s]` otherwise -/
+theorem compact_invariant {t : CompactTableBuilder} {D : List (Nat × Row)} (hs : Shape t)
+    (hc : Cells t D) :
+    ∃ T, t.build = some T ∧ T.numStates = t.numStates ∧ T.alphabetSize = t.alphabetSize ∧
+      ∀ s row, (s, row) ∈ D → ∀ c, c < t.alphabetSize →
+        (∀ v, (c, v) ∈ row → T.eval s c = some v) ∧
+        ((∀ v, (c, v) ∉ row) → T.eval s c = t.default[s]?) :=
+  let ⟨T, h1, h2, h3, _, h5⟩ := build_spec hs hc
+  ⟨T, h1, h2, h3, h5⟩
+
+theorem pickAlphabet_ne_nil {A : Automaton} (h : AutWF A) : A.pickAlphabet ≠ [] := by
+  have hp := combined_wf h
+  unfold Automaton.pickAlphabet picks
+  intro he
+  obtain ⟨h1, h2⟩ := List.append_eq_nil_iff.1 he
+  have hl : A.combinedCharPartition.list = [] := by simpa using h1
+  obtain ⟨_, _, _, hw3⟩ := hp
+  rw [hl] at hw3
+  cases hec : A.combinedCharPartition.emptyComplement with
+  | false => rw [hec] at h2; simp at h2
+  | true =>
+    simp only [emptyComplement, decide_eq_true_eq] at hec
+    have := hw3 0 (by omega)
+    simp at this
+
+/-- **compile_successors_eval**: on a well-formed automaton `compile_successors` succeeds (no
+    assertion, no index out of bounds, first-fit within its fuel) and the table it returns,
+    evaluated at (state id, alphabet index), is the id of `next(state, pick_alphabet()[index])`,
+    for every state and every index -/
+theorem compile_successors_eval {A : Automaton} (h : AutWF A) :
+    ∃ T, A.compileSuccessors = some T ∧ T.numStates = A.states.length ∧
+      T.alphabetSize = A.pickAlphabet.length ∧
+      ∀ j (hj : j < A.states.length) i (hi : i < A.pickAlphabet.length),
+        ∃ t, A.next A.states[j] A.pickAlphabet[i] = some t ∧ T.eval j i = some t.id := by
+  have hn : 0 < A.numStates := by rw [h.num]; exact Nat.lt_of_le_of_lt (Nat.zero_le _) h.init
+  have ha : 0 < A.pickAlphabet.length := List.length_pos_iff.2 (pickAlphabet_ne_nil h)
+  have halpha : ∀ c ∈ A.pickAlphabet, c ≤ MAX_CHAR := (pick_alphabet_reps h).2.1
+  obtain ⟨b0, hb0, hs0, hc0, hn0, ha0⟩ := new_spec hn ha
+  obtain ⟨b', D', hl, hinv⟩ := compileLoop_spec h halpha A.states [] b0 [] (by simp)
+    ⟨hs0, hc0, by rw [hn0, h.num], ha0, fun x hx => (by cases hx), fun s hs => (by cases hs),
+      fun s hs => (by cases hs)⟩
+  obtain ⟨T, hT, hTn, hTa, _, heval⟩ := build_spec hinv.shape hinv.cells
+  refine ⟨T, by simp only [Automaton.compileSuccessors, hb0, hl, hT], by rw [hTn, hinv.num],
+    by rw [hTa, hinv.alpha], ?_⟩
+  intro j hj i hi
+  have hsm : A.states[j] ∈ A.states := List.getElem_mem hj
+  have hid : (A.states[j]).id = j := h.ids j hj
+  obtain ⟨row, hrowD, hspec⟩ := hinv.rows _ hsm
+  rw [hid] at hrowD
+  obtain ⟨e1, e2⟩ := heval j row hrowD i (by rw [hinv.alpha]; exact hi)
+  obtain ⟨r1, r2⟩ := hspec i hi
+  cases hm : (A.states[j]).charMapsToDefault A.pickAlphabet[i] with
+  | false =>
+    obtain ⟨t, ht, hmem, _⟩ := r1 hm
+    exact ⟨t, ht, e1 _ hmem⟩
+  | true =>
+    -- the character is in the complementary class and the state has a default successor
+    simp only [State.charMapsToDefault, State.hasDefaultSuccessor, Bool.and_eq_true,
+      beq_iff_eq] at hm
+    obtain ⟨hsome, hcls⟩ := hm
+    obtain ⟨d, hd⟩ := Option.isSome_iff_exists.1 hsome
+    have hw := h.states _ hsm
+    have hdn := hw.defBound d hd
+    have hv : (A.states[j]).validClassId .complement = true := by
+      have := hw.defValid
+      rw [hsome] at this
+      simp only [State.validClassId, validClassId]
+      exact this.symm
+    refine ⟨A.states[d], ?_, ?_⟩
+    · unfold Automaton.next
+      rw [hcls, Automaton.classNext_eq, if_pos hv]
+      simp [State.rawClassNext, hd, hdn]
+    · rw [e2 (r2 (by simp [State.charMapsToDefault, State.hasDefaultSuccessor, hsome, hcls]))]
+      have := hinv.defaults _ hsm d hd
+      rw [hid] at this
+      rw [this, h.ids d hdn]
+
+/-! ### non-vacuity -/
+
+/-- the automaton of `C13.exOps` (a*b over {a,b} with a sink) plus a state nothing leads to -/
+def exOps : List BuilderOp := C13.exOps ++ [.setDefault 7 0, .markFinal 7]
+
+theorem exOps_wf : C13.WFOps exOps := by
+  intro k set k' h
+  simp only [exOps, C13.exOps, List.cons_append, List.nil_append, List.mem_cons,
+    BuilderOp.addTransition.injEq, reduceCtorEq, List.mem_nil_iff, or_false] at h
+  rcases h with ⟨_, rfl, _⟩ | ⟨_, rfl, _⟩ <;> decide
+
+/-- a well-formed automaton with four states exists (so the hypotheses above are satisfiable) … -/
+example : ∃ A, (Builder.run 0 exOps).build = some (.ok A) ∧ AutWF A ∧ A.numStates = 4 := by
+  obtain ⟨A, hA⟩ := (C13.build_verdict_exec (k0 := 0) exOps_wf).1.1 (by decide)
+  exact ⟨A, hA, build_wf exOps_wf hA, by
+    rw [(C13.build_finals exOps_wf hA).1]; decide⟩
+
+def exA : Option Automaton := C13.okOf (Builder.run 0 exOps).build
+
+/-- … pruning it removes exactly the unreachable state 3 and keeps the language … -/
+example : (exA.bind Automaton.removeUnreachableStates).map (fun A => (A.numStates, A.numFinalStates)) =
+    some (3, 1) := by decide +kernel
+example : (exA.bind (fun A => A.accepts [97, 97, 98])) = some true ∧
+    ((exA.bind Automaton.removeUnreachableStates).bind (fun A => A.accepts [97, 97, 98])) = some true ∧
+    ((exA.bind Automaton.removeUnreachableStates).bind (fun A => A.accepts [98, 97])) = some false := by
+  decide +kernel
+
+/-- … its alphabet has three representatives and the compiled table agrees with `next` -/
+example : exA.map Automaton.pickAlphabet = some [97, 98, 0] := by decide +kernel
+example : (exA.bind Automaton.compileSuccessors).map
+    (fun T => (List.range 4).map (fun s => (List.range 3).map (fun c => T.eval s c))) =
+    some [[some 0, some 1, some 2], [some 2, some 2, some 2], [some 2, some 2, some 2],
+          [some 0, some 0, some 0]] := by decide +kernel
 
 end Smt.C14
